@@ -6,7 +6,7 @@ pub struct Tokens<'a> {
 
 impl<'a> Clone for Tokens<'a> {
     fn clone(&self) -> Self {
-//@ ensures r == *self,   // [C01,~C07,~C08,~C12]
+//@ ensures r == *self,   // [~C01,~C07,~C08,~C12]
         Tokens { empty: self.empty, tokens: self.tokens }
     }
 }
@@ -20,8 +20,8 @@ impl<'a> Tokens<'a> {
     pub fn new(input: &'a mut str) -> Self {
 //@ ensures
 //@     // C07: for every NUL-free line the in-place tokenisation yields exactly the tokens of the documented rules
-//@     nul_free(old(input).spec_bytes()) ==> r.view() == tokenize(old(input).spec_bytes()),   // [C07,C01,~C08,~C12]
-//@     nul_free(old(input).spec_bytes()) ==> r.is_empty_spec() == (tokenize(old(input).spec_bytes()).len() == 0),   // [C07,C01,~C08,~C12]
+//@     nul_free(old(input).spec_bytes()) ==> r.view() == tokenize(old(input).spec_bytes()),   // [C07,~C01,~C08,~C12]
+//@     nul_free(old(input).spec_bytes()) ==> r.is_empty_spec() == (tokenize(old(input).spec_bytes()).len() == 0),   // [C07,~C01,~C08,~C12]
 //@     nul_free(old(input).spec_bytes()) ==> r.raw() == join0(tokenize(old(input).spec_bytes())),   // [C07]
         // SAFETY: bytes are modified correctly, so they remain utf8
         let bytes = unsafe { input.as_bytes_mut() };
@@ -177,7 +177,7 @@ impl<'a> Tokens<'a> {
     }
 
     pub fn from_raw(tokens: &'a str, is_empty: bool) -> Self {
-//@ ensures r.raw() == tokens.spec_bytes(), r.is_empty_spec() == is_empty,   // [C01,~C07,~C08,~C12]
+//@ ensures r.raw() == tokens.spec_bytes(), r.is_empty_spec() == is_empty,   // [~C01,~C07,~C08,~C12]
         Self {
             empty: is_empty,
             tokens,
@@ -186,17 +186,17 @@ impl<'a> Tokens<'a> {
 
     /// Returns raw representation of tokens (delimited with 0)
     pub fn into_raw(self) -> &'a str {
-//@ ensures r.spec_bytes() == self.raw(),   // [C01,~C07,~C08,~C12]
+//@ ensures r.spec_bytes() == self.raw(),   // [~C01,~C07,~C08,~C12]
         self.tokens
     }
 
     pub fn iter(&self) -> TokensIter<'a> {
-//@ ensures r.view() == self.view(), r.raw() == self.raw(), r.is_empty_spec() == self.is_empty_spec(),   // [C01,~C07,~C08,~C12]
+//@ ensures r.view() == self.view(), r.raw() == self.raw(), r.is_empty_spec() == self.is_empty_spec(),   // [~C01,~C07,~C08,~C12]
         TokensIter::new(self.tokens, self.empty)
     }
 
     pub fn is_empty(&self) -> bool {
-//@ ensures r == self.is_empty_spec(),   // [C01,~C07,~C08,~C12]
+//@ ensures r == self.is_empty_spec(),   // [~C01,~C07,~C08,~C12]
         self.empty
     }
 }
@@ -209,7 +209,7 @@ pub struct TokensIter<'a> {
 
 impl<'a> Clone for TokensIter<'a> {
     fn clone(&self) -> Self {
-//@ ensures r == *self,   // [C01,~C07,~C08,~C12]
+//@ ensures r == *self,   // [~C01,~C07,~C08,~C12]
         TokensIter { tokens: self.tokens, empty: self.empty }
     }
 }
@@ -220,12 +220,12 @@ impl<'a> TokensIter<'a> {
 //@ /// the tokens still to be yielded
 //@ pub open spec fn view(&self) -> Seq<Seq<u8>> { tokens_view(self.raw(), self.is_empty_spec()) }
     pub fn new(tokens: &'a str, empty: bool) -> Self {
-//@ ensures r.raw() == tokens.spec_bytes(), r.is_empty_spec() == empty,   // [C01,~C07,~C08,~C12]
+//@ ensures r.raw() == tokens.spec_bytes(), r.is_empty_spec() == empty,   // [~C01,~C07,~C08,~C12]
         Self { tokens, empty }
     }
 
     pub fn into_tokens(self) -> Tokens<'a> {
-//@ ensures r.raw() == self.raw(), r.is_empty_spec() == self.is_empty_spec(), r.view() == self.view(),   // [C01,~C07,~C08,~C12]
+//@ ensures r.raw() == self.raw(), r.is_empty_spec() == self.is_empty_spec(), r.view() == self.view(),   // [~C01,~C07,~C08,~C12]
         Tokens {
             empty: self.empty,
             tokens: self.tokens,
@@ -236,9 +236,9 @@ impl<'a> TokensIter<'a> {
 impl<'a> TokensIter<'a> {
     pub fn next(&mut self) -> Option<&'a str> {
 //@ ensures
-//@     old(self).view().len() == 0 ==> r is None && final(self).view() == old(self).view(),   // [C07,C01,~C08,~C12]
+//@     old(self).view().len() == 0 ==> r is None && final(self).view() == old(self).view(),   // [C07,~C01,~C08,~C12]
 //@     old(self).view().len() > 0 ==> r is Some && r.unwrap().spec_bytes() == old(self).view()[0]
-//@         && final(self).view() == old(self).view().drop_first(),   // [C07,C01,~C08,~C12]
+//@         && final(self).view() == old(self).view().drop_first(),   // [C07,~C01,~C08,~C12]
 //@ ---
 //@ proof {
 //@     broadcast use axiom_str_len_bound;
